@@ -96,6 +96,26 @@ Consistent == /\ (Held \ {0}) = reserved
               /\ \A a \in 1..NH : \A b \in 1..Len(objs) : handles[a] # 0 => handles[a] # objs[b]
 C15_Inv == TypeOK /\ NextFree /\ Consistent /\ last \in 0..(M - 1)
 
+-----------------------------------------------------------------------------
+(* Link to proofs/ToiAllocProof.tla (TLAPS, every M >= 2).  The proof module keeps <<next, reserved>> only, *)
+(* takes the loop as an operator Adv with the lemma below, and proves Inv == next \in Vals /\ reserved   *)
+(* \subseteq Vals /\ next \notin reserved.  TLC checks here (a) the lemma on the recursive Advance for     *)
+(* every v and every reserved set of this M (c15.py runs it for M = 2..10), (b) that every step of this    *)
+(* specification is a step of the proof module's Next (refinement on the bounded model).                  *)
+Vals == 1..(M - 1)
+AdvLemmaHolds == \A v \in Vals, res \in SUBSET Vals :
+                    (\E w \in Vals : w \notin res) => Advance(v, res, M) \in Vals \ res
+\* stronger than the lemma: the loop stops on the FIRST free value after v in cyclic order (0 skipped)
+CycDist(v, w) == IF w > v THEN w - v ELSE w + (M - 1) - v
+AdvFirstFree == \A v \in Vals, res \in SUBSET Vals :
+                   (\E w \in Vals : w \notin res) =>
+                      LET r == Advance(v, res, M) IN \A w \in Vals \ res : CycDist(v, r) <= CycDist(v, w)
+AbsAlloc == /\ \E w \in Vals : w \notin (reserved \cup {next})
+            /\ reserved' = reserved \cup {next}
+            /\ next' = Advance(next, reserved \cup {next}, M)
+AbsRelease == reserved' \subseteq reserved /\ next' = next
+AbsStep == [][AbsAlloc \/ AbsRelease]_<<next, reserved>>
+
 \* the model-checking view hides the history and the last result
 MCView == <<next, reserved, handles, objs, added, Len(hist)>>
 
